@@ -359,42 +359,59 @@ def reader_header(q, cx, R):
         out["problems"].append("no header line local")
         return out
     out["ops"] = RD.row_ops(fn, fn.root, hdr)
-    # comparisons
+    # the header line may be handed to a private helper (`read_header(header)`): its comparisons are looked for there as well
+    ctxs = [(fn, hdr)]
     for n in H.walk(fn.root):
+        if n.get("k") == "call":
+            for ai, a in enumerate(n.get("args") or []):
+                la = H.local_of(a)
+                if la and la[0] == hdr:
+                    cb = q.by_key.get((n.get("callee") or {}).get("inst_key") or (n.get("callee") or {}).get("key"))
+                    if cb is not None and isinstance(cb.get("body"), dict) and ai < len(cb.get("params") or []):
+                        ids = [i for i, _ in H.pat_bindings(cb["params"][ai])]
+                        if len(ids) == 1:
+                            hfn = RD.mkfn(cb)
+                            ctxs.append((hfn, ids[0]))
+                            if not out["ops"]:
+                                out["ops"] = RD.row_ops(hfn, hfn.root, ids[0])
+    # comparisons
+    for fn, hdr in ctxs:
+      for n in H.walk(fn.root):
         if n.get("k") == "if":
-            c = H.peel(n["cond"], refs=False)
-            leaves = []
+              c = H.peel(n["cond"], refs=False)
+              leaves = []
 
-            def ors(e):
-                e = H.peel(e, refs=False)
-                if e.get("k") == "bin" and e["op"] == "||":
-                    ors(e["l"])
-                    ors(e["r"])
-                else:
-                    leaves.append(e)
-            ors(c)
-            found = {}
-            good = True
-            for lf in leaves:
-                if lf.get("k") == "bin" and lf["op"] == "!=":
-                    for a, b in ((lf["l"], lf["r"]), (lf["r"], lf["l"])):
-                        v = H.const_value(b)
-                        if not isinstance(v, str):
-                            continue
-                        a0 = H.peel(a, tries=True)
-                        if a0.get("k") == "field" and a0["name"] == "first_field" and H.local_of(a0["e"]) and H.local_of(a0["e"])[0] == hdr:
-                            found["tag"] = v
-                        else:
-                            ch = fn.trace(a)
-                            if ch.root[0] == "line" and ch.root[1] == "next" and not ch.hops:
-                                found[ch.root[2]] = v
-                else:
-                    good = False
-            if found:
-                if not good:
-                    out["problems"].append("header condition is not a disjunction of `column != literal`")
-                out["lits"] = found
-                out["err_exit"] = H.is_err_exit(n["then"]) and "else" not in n
+              def ors(e):
+                  e = H.peel(e, refs=False)
+                  if e.get("k") == "bin" and e["op"] == "||":
+                      ors(e["l"])
+                      ors(e["r"])
+                  else:
+                      leaves.append(e)
+              ors(c)
+              found = {}
+              good = True
+              for lf in leaves:
+                  if lf.get("k") == "bin" and lf["op"] == "!=":
+                      for a, b in ((lf["l"], lf["r"]), (lf["r"], lf["l"])):
+                          v = H.const_value(b)
+                          if not isinstance(v, str):
+                              continue
+                          a0 = H.peel(a, tries=True)
+                          if a0.get("k") == "field" and a0["name"] == "first_field" and H.local_of(a0["e"]) and H.local_of(a0["e"])[0] == hdr:
+                              found["tag"] = v
+                          else:
+                              ch = fn.trace(a)
+                              if ch.root[0] == "line" and ch.root[1] == "next" and not ch.hops:
+                                  found[ch.root[2]] = v
+                  else:
+                      good = False
+              if found:
+                  if not good:
+                      out["problems"].append("header condition is not a disjunction of `column != literal`")
+                  out["lits"] = found
+                  out["err_exit"] = H.is_err_exit(n["then"]) and "else" not in n
+    fn, hdr = ctxs[0]
     for st in RD.struct_lits(fn, fn.root, ("MappingInfo",)):
         for f in st["fields"]:
             ch = fn.trace(f["e"])
